@@ -19,6 +19,8 @@ pub enum Act {
     TryUnwrap(usize),
     DropValue(usize),
     MakeMut(usize),
+    /// `Rc::make_mut` in place on the k-th strong handle stored in the value of root q's object
+    MakeMutField(usize, usize),
     GetMut(usize),
     IntoRaw(usize),
     FromRaw(usize),
@@ -67,6 +69,7 @@ pub fn parse_act(ws: &[&str]) -> Option<Act> {
         ["tryUnwrap", a] => TryUnwrap(n(a)?),
         ["dropValue", a] => DropValue(n(a)?),
         ["makeMut", a] => MakeMut(n(a)?),
+        ["makeMutField", a, b] => MakeMutField(n(a)?, n(b)?),
         ["getMut", a] => GetMut(n(a)?),
         ["intoRaw", a] => IntoRaw(n(a)?),
         ["fromRaw", a] => FromRaw(n(a)?),
@@ -105,6 +108,7 @@ impl Act {
             TryUnwrap(a) => format!("tryUnwrap {}", a),
             DropValue(a) => format!("dropValue {}", a),
             MakeMut(a) => format!("makeMut {}", a),
+            MakeMutField(a, b) => format!("makeMutField {} {}", a, b),
             GetMut(a) => format!("getMut {}", a),
             IntoRaw(a) => format!("intoRaw {}", a),
             FromRaw(a) => format!("fromRaw {}", a),
